@@ -1,8 +1,8 @@
 SPECIFICATION Spec
 CONSTANTS
-  NKeys = 3
-  ReW = {}
-  Vals <- MCVals
+  NKeys = 2
+  ReW = {1, 3}
+  Vals <- MCVals1
   Wt <- MCWt
   Depth = 0
   GenMode = FALSE
